@@ -1,6 +1,6 @@
 (** * Entry points the generic OCaml driver dispatches on. Model only, no proofs. *)
 From Coq Require Import List NArith ZArith Bool Floats.
-From HC Require Import Map2.Orbit2 Extract.Tok Extract.Run2 Extract.Query2 Extract.Oracle2 Extract.Sew2Oracle Extract.KernOracle Extract.GeomRun.
+From HC Require Import Map2.Orbit2 Extract.Tok Extract.Run2 Extract.Query2 Extract.Oracle2 Extract.Sew2Oracle Extract.KernOracle Extract.GeomRun Extract.GridRun.
 Import ListNotations.
 Open Scope N_scope.
 Definition entry (which : N) (ts : list tok) : list (list tok) :=
@@ -16,6 +16,8 @@ Definition entry (which : N) (ts : list tok) : list (list tok) :=
   | 9 => oracle_remesh ts
   | 20 => run_geom ts
   | 21 => oracle_geom_law ts
+  | 30 => run_grid2 ts
+  | 31 => oracle_grid2 ts
   | 98 => match obs_state ts with Some st => map (fun d => tN d :: tN (cid st PVertex d) :: vtok (vtx st d)) (all_darts st) | None => [] end
   | 99 => match obs_state ts with Some st => vertex_multiset st | None => [] end
   | _ => [[TZ (-2)]]
